@@ -619,7 +619,7 @@ def _corr_writer(ctx, broken, tmp):
     """the writer specification of Props/C10_Header.lean (op c10.write_header = `writeHeader` / `startHeader` / `stateOf`):
     (i) its bytes == the bytes of the independent Python writer for the same layout, every option combination;
     (ii) the archive assembled from ITS header and Python's pack streams, read by the REAL SevenZipReader, gives exactly
-    `stateOf L` (and extractall the packed files) — or is rejected where the theorem's excluding hypothesis says so."""
+    `stateOf L` (and extractall the packed files), for every layout incl. folder CRCs with mixed folder sizes."""
     rng = ctx.rng
     # primitives: all nine length classes of `number`, bit vectors of every length 0..40, names incl. surrogate pairs
     preqs, pexp = [], []
@@ -679,15 +679,12 @@ def _corr_writer(ctx, broken, tmp):
             ctx.count(f"writer/skipped-{e}")
             real = None
         if real is not None:
-            if mixed:   # the excluding hypothesis of the round-trip theorem: the reader rejects these (known finding)
-                ctx.count("writer/mixed-folder-crc/" + ("rejected" if real.get("err") == "bad7z" else "accepted"))
-            else:
-                if real.get("r") != o["state"]:
-                    diff = ["r." + k for k in o["state"] if (real.get("r") or {}).get(k) != o["state"].get(k)] if "r" in real else ["err"]
-                    problems.append(f"reader state != stateOf L: {sorted(diff)}; impl={_short(real, diff + ['err'])} spec={_short({'r': o['state']}, diff)}")
-                want = ([[_cps(n), list(d)] for n, kk, d in ms if kk == "file" and d] + [[_cps(n), []] for n, kk, d in ms if kk == "file" and not d])
-                if real.get("writes") != want and "r" in real:
-                    problems.append("extractall of the Lean-written archive did not write the packed files with their own bytes")
+            if real.get("r") != o["state"]:
+                diff = ["r." + k for k in o["state"] if (real.get("r") or {}).get(k) != o["state"].get(k)] if "r" in real else ["err"]
+                problems.append(f"reader state != stateOf L: {sorted(diff)}; impl={_short(real, diff + ['err'])} spec={_short({'r': o['state']}, diff)}")
+            want = ([[_cps(n), list(d)] for n, kk, d in ms if kk == "file" and d] + [[_cps(n), []] for n, kk, d in ms if kk == "file" and not d])
+            if real.get("writes") != want and "r" in real:
+                problems.append("extractall of the Lean-written archive did not write the packed files with their own bytes")
         if problems:
             bad += 1
             if bad <= 6:
@@ -1138,7 +1135,7 @@ WITNESSES = [
      {"groups": [1], "coders": ["copy"], "opts": _WIN}),
     ("7z.non-bmp-name-aborts-archive", "7z", None, [("a.txt", "file", b"alpha"), ("s\U0001F600.txt", "file", b"smile")],
      {"groups": [2], "coders": ["copy"], "opts": _WIN}),
-    # open known findings found by the header round-trip proof (counterexample theorems of Props/C10_Header.lean)
+    # defects found by the header round-trip proof and repaired (legacy counterexample theorems of Props/C10_Header.lean)
     ("7z.substream-digests-with-folder-crc", "7z", None,
      [("a.txt", "file", b"alpha"), ("b.txt", "file", b"bravo!"), ("c.txt", "file", b"charlie")],
      {"groups": [1, 2], "coders": ["copy", "copy"], "opts": dict(_WIN, folder_crc=True)}),
@@ -1151,7 +1148,7 @@ WITNESSES = [
 
 
 def known_witnesses(ctx):
-    """the witnesses of the four repaired defects and of the open known findings (counterexample theorems), re-run on the
+    """the witnesses of the six repaired defects (counterexample theorems) and of the open known finding, re-run on the
     real code every run"""
     out = []
     for key, fmt, sub, members, spec in WITNESSES:
